@@ -23,7 +23,7 @@ def build_cases(ctx, n):
     valid = []
     for alg, enc in E.combos(rng, n):
         ser = rng.choice(["compact", "compact", "flat", "general"])
-        c = E.build(rng, alg, enc, ser, rng.choice(E.PLAINTEXTS), zip_=rng.random() < 0.25, style=rng.randrange(5),
+        c = E.build(rng, alg, enc, ser, rng.choice(E.PLAINTEXTS), zip_=rng.random() < 0.25, style=rng.randrange(6),
                     aad=(b"some aad" if ser != "compact" and rng.random() < 0.5 else None),
                     kn=E.key_name(alg, enc, rng),
                     header_extra=(rng.choice([None, {"typ": "x"}, {"apu": "QWxpY2U", "apv": "Qm9i"}, {"apu": "QQ"}]) if alg.startswith("ECDH")
